@@ -130,8 +130,16 @@ impl Scenario for C17 {
                 }
             }
         };
-        let client = end(r);
+        let mut client = end(r);
         let server = end(r);
+        // in a tenth of the runs another user of the connection lets go of its mutex just before a queued call's
+        // timeout would have run out, and the call's own write then takes a few ms: the time a call spends before
+        // it starts to wait for its answer comes close to, or exceeds, its timeout
+        let tight = r.chance(1, 10);
+        if tight {
+            client.stall_16 = *r.pick(&[4, 8, 12]);
+            client.max_delay_ms = *r.pick(&[2, 5, 20]);
+        }
         let n_callers = r.range(1, 8) as usize;
         let mut callers = Vec::new();
         let mut p = Plan {
@@ -158,7 +166,11 @@ impl Scenario for C17 {
             let n = r.range(1, 4) as usize;
             let mut calls = Vec::new();
             for _ in 0..n {
-                let timeout_ms = *r.pick(&[3 * m + 200, 3000 + 3 * m, 20_000 + 3 * m]);
+                let mut timeout_ms = *r.pick(&[3 * m + 200, 3000 + 3 * m, 20_000 + 3 * m]);
+                if r.chance(1, 25) {
+                    // no time at all, or next to none: such a call times out (the answer needs a round trip)
+                    timeout_ms = *r.pick(&[0u64, 0, 1, 2]);
+                }
                 let reply = (*r.pick(&["normal", "normal", "normal", "twice", "never", "unknown_pid", "resend_earlier"])).to_string();
                 // delays: well before, just before, just after, well after the caller's timeout
                 let delay_ms = match r.below(8) {
@@ -200,6 +212,16 @@ impl Scenario for C17 {
                 .collect();
             callers = vec![calls];
             p.calls_before_start = 0;
+        }
+        if tight {
+            let ci = r.below(callers.len() as u64) as usize;
+            let c = &callers[ci][0];
+            if !c.to_unconnected && c.timeout_ms != u64::MAX && c.timeout_ms > 10 {
+                let s = r.below(c.start_delay_ms + 1);
+                let delta = *r.pick(&[0u64, 1, 2, 3, 10, 30]);
+                let dur = (c.start_delay_ms + c.timeout_ms).saturating_sub(delta + s).max(1);
+                p.lock_holds.push((s, dur));
+            }
         }
         p.callers = callers;
         if faults && r.chance(2, 3) {
